@@ -37,11 +37,17 @@ br_ssl_client_zero(br_ssl_client_context *cc)
 #ifdef BR_VERIF
 	BR_VERIF_GUARD(cc->eng.verif_guard_pad0, 0);
 	BR_VERIF_GUARD(cc->eng.verif_guard_pad1, 0);
+	BR_VERIF_GUARD(cc->eng.verif_guard_suites_buf, 0);
+	BR_VERIF_GUARD(cc->eng.verif_guard_ecdhe_point, 0);
+	BR_VERIF_GUARD(cc->eng.verif_guard_saved_finished, 0);
 #endif
 	memset(cc, 0, sizeof *cc);
 #ifdef BR_VERIF
 	BR_VERIF_GUARD(cc->eng.verif_guard_pad0, 1);
 	BR_VERIF_GUARD(cc->eng.verif_guard_pad1, 1);
+	BR_VERIF_GUARD(cc->eng.verif_guard_suites_buf, 1);
+	BR_VERIF_GUARD(cc->eng.verif_guard_ecdhe_point, 1);
+	BR_VERIF_GUARD(cc->eng.verif_guard_saved_finished, 1);
 #endif
 }
 
